@@ -26,6 +26,9 @@ namespace sqf
         public:
             using data_type = sqf::runtime::t_array;
             using iterator = std::vector<sqf::runtime::value>::iterator;
+            // The largest number of elements a script may ask an array to have (the limit of the game);
+            // a size taken from a script number must not decide how much memory the VM asks for
+            static constexpr size_t max_size = 9999999;
         private:
             std::vector<sqf::runtime::value> m_value;
             bool recursion_test_(std::vector<std::shared_ptr<d_array>>& visited)
